@@ -110,10 +110,16 @@ func main() {
 		"<ul><li>1<li>2</ul>", "</div>", "<div class=k id=i>", "<title>t</title>", "<script>if (a<b) {}</script>", "<math><mi>x</mi></math>", "<select><option>o", "<a href=u>l<a href=v>m", "<textarea>\n x</textarea>", "<body bgcolor=red>", "<html lang=en>", "<head><meta charset=utf-8>", "<frameset>", "<template><p>t</template>", "<ruby>r<rt>t", "<!doctype html>", "<p xml:lang=de xmlns=foo>q"}
 	doctypes := []string{"<!DOCTYPE html>", "<!doctype html>\n", "<!DOCTYPE html PUBLIC \"-//W3C//DTD HTML 4.01//EN\">"}
 	var fails []failure
+	var samples []string
+	distinct := map[string]bool{}
 	docs := 0
 	var gen func(prefix string, k int)
 	check := func(src string) {
 		docs++
+		distinct[src] = true
+		if docs%9973 == 1 && len(samples) < 5 {
+			samples = append(samples, src)
+		}
 		ref, err := html.Parse(strings.NewReader(src))
 		if err != nil {
 			return
@@ -167,10 +173,13 @@ func main() {
 	check("<!DOCTYPE html>" + strings.Repeat("<div>", 300) + "x")
 	check("<!DOCTYPE html>" + strings.Repeat("<p>y", 2000))
 	sum := map[string]interface{}{
-		"what":      "ReadHtml vs the golang.org/x/net/html parse tree of assembled documents that start with a doctype",
-		"bound":     fmt.Sprintf("3 doctypes x every sequence of up to %d fragments out of %d (thinned deterministically below the first position), each also with a trailing comment; one 300-deep and one 2000-wide document", *n, len(frags)),
-		"documents": docs,
-		"failures":  fails,
+		"what":        "ReadHtml vs the golang.org/x/net/html parse tree of assembled documents that start with a doctype",
+		"bound":       fmt.Sprintf("3 doctypes x every sequence of up to %d fragments out of %d (thinned deterministically below the first position), each also with a trailing comment; one 300-deep and one 2000-wide document", *n, len(frags)),
+		"documents":   docs,
+		"evaluations": docs,
+		"distinct":    len(distinct),
+		"samples":     samples,
+		"failures":    fails,
 	}
 	b, _ := json.MarshalIndent(sum, "", " ")
 	if *outPath != "" {
